@@ -1,4 +1,5 @@
 import Eru.Book.ProofsSum
+import Eru.Book.ProofsRemap
 /-
 C15 — Resource repair restores consistent usage.
 Property theorems only; helper lemmas live in Eru/Book/ProofsSum.lean.
@@ -6,42 +7,68 @@ Property theorems only; helper lemmas live in Eru/Book/ProofsSum.lean.
 namespace Eru.Props.C15
 open Eru Eru.Book
 
-/-- Repair on a node whose usage has drifted *arbitrarily* (any stored usage; no relation
-    to the workloads is assumed) and whose workloads fit the capacity: afterwards the check
-    reports no differences, usage equals the workloads' sum on everything the check compares,
-    and — whenever the repair actually ran — usage equals the sum on *every* core and NUMA node. -/
-theorem fix_consistent (n : NodeInfo) (hw : WFNode n) (ws : List WorkloadRes) (hws : ∀ w ∈ ws, WFW w)
+/-- what the check compares implies full consistency on a stored node with fitting workloads:
+    neither the usage (Validate) nor the workloads' sum (`Fits`) has per-core keys outside the
+    capacity -/
+theorem consistent_of_consistentOn (n : NodeInfo) (hv : Valid n) (ws : List WorkloadRes) (hws : ∀ w ∈ ws, WFW w)
+    (hfit : Fits n ws) (h : ConsistentOn n.capacity n.usage ws) : Consistent n.usage ws := by
+  obtain ⟨c1, c2, c3, c4⟩ := h
+  obtain ⟨_, _, h3, _, _⟩ := sumWorkloads_spec ws hws
+  refine ⟨c1, c2, fun k => ?_, c4⟩
+  by_cases hk : k ∈ n.capacity.cpuMap.keys
+  · exact c3 k hk
+  · have hu : k ∉ n.usage.cpuMap.keys := fun hm => hk (usage_keys_subset n hv.2.1 k hm)
+    have hs : k ∉ (sumWorkloads ws).cpuMap.keys := fun hm =>
+      hk (usage_keys_subset { n with usage := repairedUsage ws } hfit.2.1 k hm)
+    rw [get_of_not_mem_keys _ _ hu, ← h3, get_of_not_mem_keys _ _ hs]
+
+/-- Repair on a stored node whose usage has drifted *arbitrarily* (any usage the plugin can hold:
+    total CPU, memory, per-core pieces, NUMA memory under any id; no relation to the workloads
+    is assumed) and whose workloads fit the capacity: afterwards the usage equals the sum of the
+    workloads' resources on every component, and the check reports no differences. -/
+theorem fix_consistent (n : NodeInfo) (hw : WFNode n) (hv : Valid n) (ws : List WorkloadRes) (hws : ∀ w ∈ ws, WFW w)
     (hfit : Fits n ws) :
-    let n' := (fixNodeResource n ws).1
-    resourceDiffs n' ws = [] ∧ ConsistentOn n'.capacity n'.usage ws ∧ n'.capacity = n.capacity ∧
-    (resourceDiffs n ws ≠ [] → Consistent n'.usage ws) := by
+    Consistent (fixNodeResource n ws).1.usage ws ∧ resourceDiffs (fixNodeResource n ws).1 ws = [] ∧
+    (fixNodeResource n ws).1.capacity = n.capacity := by
   obtain ⟨_, _, _, _, hs⟩ := sumWorkloads_spec ws hws
   unfold fixNodeResource
   by_cases hd : (resourceDiffs n ws).length = 0
   · have hnil : resourceDiffs n ws = [] := List.eq_nil_of_length_eq_zero hd
     simp only [hd, if_true]
-    exact ⟨hnil, (no_diffs_iff n ws hws).1 hnil, trivial, fun h => absurd hnil h⟩
+    exact ⟨consistent_of_consistentOn n hv ws hws hfit ((no_diffs_iff n ws hws).1 hnil), hnil, trivial⟩
   · simp only [hd, if_false]
     have hwf : WFNode { n with usage := repairedUsage ws } := ⟨hw.cc, hw.cn, hs.1, hs.2⟩
     have hval := validate_of_valid _ hwf hfit
     unfold repairedUsage at hval
     simp only [hval]
     have hcons := repairedUsage_consistent ws hws
-    refine ⟨?_, ?_, trivial, fun _ => hcons⟩
-    · exact (no_diffs_iff _ ws hws).2 ⟨hcons.1, hcons.2.1, fun k _ => hcons.2.2.1 k, fun k _ => hcons.2.2.2 k⟩
-    · exact ⟨hcons.1, hcons.2.1, fun k _ => hcons.2.2.1 k, fun k _ => hcons.2.2.2 k⟩
+    exact ⟨hcons, (no_diffs_iff _ ws hws).2 ⟨hcons.1, hcons.2.1, fun k _ => hcons.2.2.1 k, hcons.2.2.2⟩, trivial⟩
 
 /-- The check after a repair reports no differences, stated on the reported diff list
     (what `NodeResource(fix=false)` returns after `NodeResource(fix=true)`). -/
-theorem second_check_clean (n : NodeInfo) (hw : WFNode n) (ws : List WorkloadRes) (hws : ∀ w ∈ ws, WFW w)
+theorem second_check_clean (n : NodeInfo) (hw : WFNode n) (hv : Valid n) (ws : List WorkloadRes) (hws : ∀ w ∈ ws, WFW w)
     (hfit : Fits n ws) : resourceDiffs (fixNodeResource n ws).1 ws = [] :=
-  (fix_consistent n hw ws hws hfit).1
+  (fix_consistent n hw hv ws hws hfit).2.1
 
-/-- the oracle's decidable predicates: fitting workloads and a drift that the check sees ⇒
-    after the repair `consistentB` holds of the stored usage -/
-theorem fix_consistent_decidable (n : NodeInfo) (hw : WFNode n) (ws : List WorkloadRes) (hws : ∀ w ∈ ws, WFW w)
-    (hfit : Fits n ws) (hd : resourceDiffs n ws ≠ []) : consistentB (fixNodeResource n ws).1.usage ws = true :=
-  (consistentB_iff _ _).2 ((fix_consistent n hw ws hws hfit).2.2.2 hd)
+/-- the oracle's decidable predicates: fitting workloads on a stored node ⇒ after the repair
+    `consistentB` holds of the stored usage -/
+theorem fix_consistent_decidable (n : NodeInfo) (hw : WFNode n) (hv : Valid n) (ws : List WorkloadRes) (hws : ∀ w ∈ ws, WFW w)
+    (hfit : Fits n ws) : consistentB (fixNodeResource n ws).1.usage ws = true :=
+  (consistentB_iff _ _).2 (fix_consistent n hw hv ws hws hfit).1
+
+/-- Before the fix the check compared per-NUMA usage over the capacity's ids only: NUMA usage
+    recorded under an id missing from the capacity (here: on a node without NUMA topology) produced
+    no difference, so the repair did not run although usage ≠ Σ workloads (witness replayed on the
+    real code by the harness' foreign-NUMA drift class). -/
+theorem fix_misses_foreign_numa_counterexample :
+    let n : NodeInfo := { capacity := { cpu := nano, cpuMap := [("0", 100)], memory := 1000 },
+                          usage := { numaMemory := [("0", 500)] } }
+    let oldNumaDiffs := n.capacity.numaMemory.keys.filter fun id => (sumWorkloads []).numaMemory.get id ≠ n.usage.numaMemory.get id
+    Valid n ∧ oldNumaDiffs = [] ∧ ¬ Consistent n.usage [] ∧ resourceDiffs n [] = ["numa:0"] := by
+  refine ⟨by decide, by decide, ?_, by decide⟩
+  intro h
+  have := h.2.2.2 "0"
+  revert this; decide
 
 /-- Without differences the repair changes nothing and reports nothing. -/
 theorem fix_noop_when_no_diffs (n : NodeInfo) (ws : List WorkloadRes) (h : resourceDiffs n ws = []) :
